@@ -137,7 +137,7 @@ let rec expr p ind e =
   | EArrLit (es, t) -> str p "["; commas p ind es; str p "] : "; str p (ty_str p t)
   | EIndex (a, i) -> sub p ind a; str p "["; expr p ind i; str p "]"
   | ERecNew (r, args) -> str p (rec_name (int_of_n r)); str p "("; commas p ind args; str p ")"
-  | ERecNil _ -> str p "nil"
+  | ERecNil r -> str p (rec_name (int_of_n r))     (* the record name alone: nil of that record type *)
   | EField (a, r, pos) -> sub p ind a; str p "."; str p (field_name (int_of_n r) (int_of_nat pos))
   | EPrint a -> str p "print("; expr p ind a; str p ")"
 
